@@ -3,6 +3,13 @@
    every run), observation modulo identities, reachability of fixed depth, primitive
    mutations.  Executable definitions only; the proofs are in Proofs/Alias.v.
 
+   Attribute VALUES: an attrib dictionary that holds mutable values (lists, dicts, arrays, nested ones) points to the
+   store of those values (`CDict kv (Some l)`, `get h l = CVal content`; kv shows a content-free token for such a
+   value).  `ptrs` / `reach` / `obs` are the container level (the edge to the store is not followed), `vptrs` / `vreach` /
+   `stores` the deep level; an alias row says per level (object, atoms, bonds) whether a route hands out fresh values
+   or the source's objects (`vst`), `vals_ok` demands fresh ones of the routes whose contract is a deep copy, `vedit` /
+   `compile_vedit` is the in-place edit of such a value.  Deep-level proofs: Proofs/AliasVal.v.
+
    Locations are indices into a list of cells (nat = index).  All leaf values (element,
    label, a float, a dict key or value, a name ...) are opaque integers: the harness interns
    them per case, the property only ever compares them for equality. *)
@@ -18,12 +25,15 @@ Definition dict := list (Z * Z).          (* insertion ordered, like a Python di
 
 Inductive cell :=
 | CFree
-| CDict (kv : dict)                                             (* an attrib dictionary *)
+| CDict (kv : dict) (vals : option loc)                         (* an attrib dictionary; `vals`: the store of the MUTABLE values it
+                                                                   holds (kv has a content-free token for such a value) *)
 | CArr (vals : list Z)                                          (* coordinates / charges / weights, flattened *)
 | CAtom (pay : list Z) (att : loc) (par : pref)                 (* an Atom object *)
 | CBond (a1 a2 : loc) (pay : list Z) (att : loc) (par : pref)   (* a Bond object *)
 | CList (items : list loc)                                      (* the _atoms / _bonds list *)
-| CMol (cls : Z) (scal : list Z) (atoms : loc) (bonds coords charges weights : option loc) (att : loc).
+| CMol (cls : Z) (scal : list Z) (atoms : loc) (bonds coords charges weights : option loc) (att : loc)
+| CVal (content : list Z).   (* the mutable values held by ONE attrib dictionary -- lists, dicts, arrays and whatever mutable
+                                objects are nested in them -- flattened to their leaves; edited in place, never rebound *)
 
 Definition heap := list cell.
 Definition get (h : heap) (l : loc) : cell := nth l h CFree.
@@ -47,6 +57,11 @@ Definition ptrs (c : cell) : list loc :=
   | _ => []
   end.
 
+(* Two pointer notions.  `ptrs`: the containers the property names (an attrib dictionary is a leaf).  `vptrs`:
+   the same plus the edge from an attrib dictionary to the store of its mutable values -- the deep notion, the
+   one a route whose contract is a DEEP copy (pickle, copy.deepcopy) must separate. *)
+Definition vptrs (c : cell) : list loc := match c with CDict _ v => olist v | _ => ptrs c end.
+
 (* reach of fixed depth: the object, its lists, arrays and attrib dict, its atoms and bonds,
    their attrib dicts, the end atoms of its bonds and their dicts (depth 4 from a molecule) *)
 Fixpoint reachN (n : nat) (h : heap) (l : loc) : list loc :=
@@ -55,6 +70,13 @@ Fixpoint reachN (n : nat) (h : heap) (l : loc) : list loc :=
   | S n' => l :: flat_map (reachN n' h) (ptrs (get h l))
   end.
 Definition reach (h : heap) (o : loc) : list loc := reachN 4 h o.
+(* generic in the pointer notion; the deep reach goes one level further (dict -> store of its values) *)
+Fixpoint greachN (P : cell -> list loc) (n : nat) (h : heap) (l : loc) : list loc :=
+  match n with
+  | O => [l]
+  | S n' => l :: flat_map (greachN P n' h) (P (get h l))
+  end.
+Definition vreach (h : heap) (o : loc) : list loc := greachN vptrs 5 h o.
 
 Definition mem (l : loc) (s : list loc) : bool := existsb (Nat.eqb l) s.
 Definition disjointb (s1 s2 : list loc) : bool := forallb (fun l => negb (mem l s2)) s1.
@@ -62,20 +84,37 @@ Definition disjointb (s1 s2 : list loc) : bool := forallb (fun l => negb (mem l 
 (* typing by rank: every strong pointer goes to a cell of strictly smaller rank *)
 Definition rank (c : cell) : nat :=
   match c with
-  | CFree | CDict _ | CArr _ => 0 | CAtom _ _ _ => 1 | CBond _ _ _ _ _ => 2 | CList _ => 3
+  | CFree | CDict _ _ | CArr _ | CVal _ => 0 | CAtom _ _ _ => 1 | CBond _ _ _ _ _ => 2 | CList _ => 3
   | CMol _ _ _ _ _ _ _ _ => 4
   end.
 Definition rankedb (h : heap) : bool :=
   forallb (fun c => forallb (fun p => (p <? length h) && (rank (get h p) <? rank c)) (ptrs c)) h.
 Definition heap_wfb (h : heap) : bool :=
   forallb (fun c => forallb (fun p => p <? length h) (ptrs c)) h.
+(* the deep typing: a store lies below the dictionary that holds it *)
+Definition vrank (c : cell) : nat :=
+  match c with
+  | CFree | CArr _ | CVal _ => 0 | CDict _ _ => 1 | CAtom _ _ _ => 2 | CBond _ _ _ _ _ => 3 | CList _ => 4
+  | CMol _ _ _ _ _ _ _ _ => 5
+  end.
+Definition vrankedb (h : heap) : bool :=
+  forallb (fun c => forallb (fun p => (p <? length h) && (vrank (get h p) <? vrank c)) (vptrs c)) h.
+Definition vheap_wfb (h : heap) : bool :=
+  forallb (fun c => forallb (fun p => p <? length h) (vptrs c)) h.
 
 (* ------------------------------------------------------------------ observation *)
 Inductive pcls := QNone | QMissing | QSelf | QOther.
 Definition pobs (o : loc) (p : pref) : pcls :=
   match p with PNone => QNone | PMissing => QMissing | PTo l => if Nat.eqb l o then QSelf else QOther end.
 
-Definition dict_of (h : heap) (l : loc) : option dict := match get h l with CDict kv => Some kv | _ => None end.
+Definition dict_of (h : heap) (l : loc) : option dict := match get h l with CDict kv _ => Some kv | _ => None end.
+Definition vals_of (h : heap) (l : loc) : option loc := match get h l with CDict _ v => v | _ => None end.
+(* content of the mutable values an attrib dictionary holds (None: it holds none) *)
+Definition store_of (h : heap) (d : loc) : option (list Z) :=
+  match vals_of h d with
+  | Some l => match get h l with CVal c => Some c | _ => None end
+  | None => None
+  end.
 Definition arr_of (h : heap) (l : loc) : option (list Z) := match get h l with CArr v => Some v | _ => None end.
 Definition items_of (h : heap) (l : loc) : list loc := match get h l with CList v => v | _ => [] end.
 Definition oarr (h : heap) (ol : option loc) : option (list Z) :=
@@ -113,6 +152,21 @@ Definition obs (h : heap) (o : loc) : option obsr :=
   | _ => None
   end.
 
+(* the DEEP part of the observation: what is stored in the mutable attribute values of the object, of its atoms
+   and of its bonds (in that order) *)
+Definition atom_store (h : heap) (a : loc) : option (list Z) :=
+  match get h a with CAtom _ d _ => store_of h d | _ => None end.
+Definition bond_store (h : heap) (b : loc) : option (list Z) :=
+  match get h b with CBond _ _ _ d _ => store_of h d | _ => None end.
+Record storesr := mk_stores { s_obj : option (list Z); s_atoms : list (option (list Z)); s_bonds : list (option (list Z)) }.
+Definition stores (h : heap) (o : loc) : option storesr :=
+  match get h o with
+  | CMol _ _ al bl _ _ _ at_ =>
+      Some (mk_stores (store_of h at_) (map (atom_store h) (items_of h al))
+                      (match bl with Some l => map (bond_store h) (items_of h l) | None => [] end))
+  | _ => None
+  end.
+
 (* parents are observed on each side, never compared across sides *)
 Definition strip_a (a : aobs) : option (list Z * option dict) :=
   match a with Some (p, d, _) => Some (p, d) | None => None end.
@@ -125,14 +179,18 @@ Definition self_b (b : bobs) : bool := match b with Some (_, _, _, _, QSelf) => 
 Inductive st := Shared | Copied | Reset (* fresh and empty *) | Odd (* anything else *).
 Inductive pst := RSelf | RNone | RMissing | RKeep (* still the source's parent *) | ROdd.
 Inductive ast := AShared | ACopied | AGiven (* fresh, content not the source's *) | AAbsent.
+(* the mutable VALUES held by a copied attrib dictionary: every one a fresh object with equal content / the very
+   objects of the source (a one-level copy) / some of each / anything else (content differs) *)
+Inductive vst := VFresh | VShared | VPart | VOdd.
 Inductive est := ERemap (* ends are the new atoms at the same indices *) | EKeep (* ends are the source's atoms *) | EOdd.
 
-Record bondrow := mk_brow { b_list : st; b_obj : st; b_attrib : st; b_parent : pst; b_ends : est }.
+Record bondrow := mk_brow { b_list : st; b_obj : st; b_attrib : st; b_parent : pst; b_ends : est; b_vals : vst }.
 Record row := mk_row {
   r_alist : st; r_atom : st; r_aattrib : st; r_aparent : pst;
   r_bonds : option bondrow;
   r_coords : ast; r_charges : ast; r_weights : ast;
-  r_attrib : st; r_scal : bool (* name / charge / mult kept *) }.
+  r_attrib : st; r_scal : bool (* name / charge / mult kept *);
+  r_avals : vst (* values in the atoms' attrib dicts *); r_vals : vst (* values in the object's attrib dict *) }.
 
 (* content supplied by the route, not by the source (defaults, stacked or computed arrays) *)
 Record given := mk_given { g_scal : list Z; g_coords : list Z; g_charges : list Z; g_weights : list Z }.
@@ -142,17 +200,32 @@ Fixpoint mapi_from {A B} (f : nat -> A -> B) (i : nat) (l : list A) : list B :=
 
 (* Layout of the cells a copy allocates, base = length of the heap before the copy,
    n atoms, m bonds:  base root | +1 atom list | +2 bond list | +3 coords | +4 charges |
-   +5 weights | +6 attrib | +7+j atom j | +7+n+j its dict | +7+2n+j bond j | +7+2n+m+j its dict.
+   +5 weights | +6 attrib | +7+j atom j | +7+n+j its dict | +7+2n+j bond j | +7+2n+m+j its dict |
+   vb = +7+2n+2m: the store of the values of the object's attrib | vb+1+j that of atom j | vb+1+n+j that of bond j.
    A slot whose container is shared / absent holds CFree. *)
 Definition new_parent (base : loc) (p : pst) (old : pref) : pref :=
   match p with RSelf => PTo base | RNone => PNone | RMissing => PMissing | RKeep => old | ROdd => PMissing end.
 
-Definition dict_cell (h : heap) (s : st) (src : loc) : cell :=
+Definition val_loc (s : vst) (src : option loc) (fresh : loc) : option loc :=
+  match src with
+  | None => None
+  | Some l => match s with VShared => Some l | _ => Some fresh end
+  end.
+Definition val_cell (h : heap) (s : vst) (src : option loc) : cell :=
+  match s, src with
+  | VFresh, Some l => match get h l with CVal c => CVal c | _ => CFree end
+  | _, _ => CFree
+  end.
+(* a copied dictionary: the same keys and leaf values; its mutable values are the source's objects (VShared) or
+   live in a store of its own at `fresh` *)
+Definition dict_cell (h : heap) (s : st) (vs : vst) (src fresh : loc) : cell :=
   match s with
-  | Copied => match dict_of h src with Some kv => CDict kv | None => CFree end
-  | Reset => CDict []
+  | Copied => match get h src with CDict kv v => CDict kv (val_loc vs v fresh) | _ => CFree end
+  | Reset => CDict [] None
   | _ => CFree
   end.
+Definition store_cell (h : heap) (s : st) (vs : vst) (src : loc) : cell :=
+  match s with Copied => val_cell h vs (vals_of h src) | _ => CFree end.
 Definition dict_loc (s : st) (src fresh : loc) : loc := match s with Shared => src | _ => fresh end.
 
 Definition arr_cell (h : heap) (s : ast) (src : option loc) (g : list Z) : cell :=
@@ -177,10 +250,16 @@ Definition atom_cells (r : row) (h : heap) (base adbase : loc) (atoms : list loc
     | Copied, CAtom p d par => CAtom p (dict_loc (r_aattrib r) d (adbase + j)) (new_parent base (r_aparent r) par)
     | _, _ => CFree
     end) 0 atoms.
-Definition adict_cells (r : row) (h : heap) (atoms : list loc) : list cell :=
+Definition adict_cells (r : row) (h : heap) (avbase : loc) (atoms : list loc) : list cell :=
   mapi_from (fun (j : nat) a =>
     match r_atom r, get h a with
-    | Copied, CAtom p d par => dict_cell h (r_aattrib r) d
+    | Copied, CAtom p d par => dict_cell h (r_aattrib r) (r_avals r) d (avbase + j)
+    | _, _ => CFree
+    end) 0 atoms.
+Definition astore_cells (r : row) (h : heap) (atoms : list loc) : list cell :=
+  mapi_from (fun (j : nat) a =>
+    match r_atom r, get h a with
+    | Copied, CAtom p d par => store_cell h (r_aattrib r) (r_avals r) d
     | _, _ => CFree
     end) 0 atoms.
 Definition remap (e : est) (atoms new_atoms : list loc) (a : loc) : loc :=
@@ -188,7 +267,7 @@ Definition remap (e : est) (atoms new_atoms : list loc) (a : loc) : loc :=
   | ERemap => match index_of a atoms with Some i => nth i new_atoms a | None => a end
   | _ => a
   end.
-Definition no_brow : bondrow := mk_brow Odd Odd Odd ROdd EOdd.
+Definition no_brow : bondrow := mk_brow Odd Odd Odd ROdd EOdd VOdd.
 Definition brow_of (r : row) : bondrow := match r_bonds r with Some b => b | None => no_brow end.
 Definition bond_cells (br : bondrow) (h : heap) (base bdbase : loc) (atoms new_atoms bonds : list loc) : list cell :=
   mapi_from (fun j b =>
@@ -198,10 +277,16 @@ Definition bond_cells (br : bondrow) (h : heap) (base bdbase : loc) (atoms new_a
               (dict_loc (b_attrib br) d (bdbase + j)) (new_parent base (b_parent br) par)
     | _, _ => CFree
     end) 0 bonds.
-Definition bdict_cells (br : bondrow) (h : heap) (bonds : list loc) : list cell :=
+Definition bdict_cells (br : bondrow) (h : heap) (bvbase : loc) (bonds : list loc) : list cell :=
   mapi_from (fun (j : nat) b =>
     match b_obj br, get h b with
-    | Copied, CBond a1 a2 p d par => dict_cell h (b_attrib br) d
+    | Copied, CBond a1 a2 p d par => dict_cell h (b_attrib br) (b_vals br) d (bvbase + j)
+    | _, _ => CFree
+    end) 0 bonds.
+Definition bstore_cells (br : bondrow) (h : heap) (bonds : list loc) : list cell :=
+  mapi_from (fun (j : nat) b =>
+    match b_obj br, get h b with
+    | Copied, CBond a1 a2 p d par => store_cell h (b_attrib br) (b_vals br) d
     | _, _ => CFree
     end) 0 bonds.
 Definition new_bonds_of (br : bondrow) (bbase : loc) (bonds : list loc) : list loc :=
@@ -238,6 +323,7 @@ Definition copy_row (r : row) (g : given) (dcls : Z) (h : heap) (o : loc) : opti
       let adbase := abase + n in
       let bbase := adbase + n in
       let bdbase := bbase + m in
+      let vbase := bdbase + m in
       let new_atoms := new_atoms_of r abase atoms in
       let br := brow_of r in
       let root := CMol dcls (if r_scal r then sc else g_scal g) (alist_loc_of r al base) (blist_loc_of r bl base)
@@ -246,9 +332,10 @@ Definition copy_row (r : row) (g : given) (dcls : Z) (h : heap) (o : loc) : opti
       if match b_ends br with ERemap => negb (ends_found h atoms bonds) | _ => false end then None else
       Some (h ++ [root; alist_cell_of r new_atoms; blist_cell_of r bl (new_bonds_of br bbase bonds);
                   arr_cell h (r_coords r) co (g_coords g); arr_cell h (r_charges r) ch (g_charges g);
-                  arr_cell h (r_weights r) we (g_weights g); dict_cell h (r_attrib r) at_]
-              ++ atom_cells r h base adbase atoms ++ adict_cells r h atoms
-              ++ bond_cells br h base bdbase atoms new_atoms bonds ++ bdict_cells br h bonds, base)
+                  arr_cell h (r_weights r) we (g_weights g); dict_cell h (r_attrib r) (r_vals r) at_ vbase]
+              ++ atom_cells r h base adbase atoms ++ adict_cells r h (vbase + 1) atoms
+              ++ bond_cells br h base bdbase atoms new_atoms bonds ++ bdict_cells br h (vbase + 1 + n) bonds
+              ++ (store_cell h (r_attrib r) (r_vals r) at_ :: astore_cells r h atoms ++ bstore_cells br h bonds), base)
   | _ => None
   end.
 
@@ -294,6 +381,19 @@ Definition row_faithful (nd : need) (r : row) : bool :=
 
 Definition row_ok (nd : need) (r : row) : bool := row_indep r && row_faithful nd r.
 
+(* the mutable VALUES stored in the attribute dictionaries (object, atoms, bonds).  A route whose contract is a deep
+   copy must hand out values of its own at every level; a one-level route (copy constructor, evolve, and what is built
+   from evolved atoms: concatenate, join, ensemble-from-list) may hand out the source's value objects, but never values
+   with another content. *)
+Definition vst_fresh (s : vst) : bool := match s with VFresh => true | _ => false end.
+Definition vst_ok (deep : bool) (s : vst) : bool :=
+  match s with VFresh => true | VShared | VPart => negb deep | VOdd => false end.
+Definition vals_ok (deep : bool) (r : row) : bool :=
+  vst_ok deep (r_vals r) && vst_ok deep (r_avals r)
+  && match r_bonds r with Some b => vst_ok deep (b_vals b) | None => true end.
+(* deep independence: nothing of the source is reachable from the result, attribute values included *)
+Definition vrow_indep (r : row) : bool := row_indep r && vals_ok true r.
+
 (* ------------------------------------------------------------------ classes, routes, the specification *)
 Inductive kls := KPromolecule | KConnectivity | KGeometry | KStructure | KMolecule | KEnsemble | KConformer
                | KAtom | KBond.
@@ -314,6 +414,9 @@ Inductive route :=
 | RConcat (dst : kls) (k : nat)    (* dst.concatenate of k sources *)
 | RJoin (dst : kls)
 | REnsFromList.
+
+(* routes whose contract is a DEEP copy: the pickle round trip and copy.deepcopy *)
+Definition deep_route (r : route) : bool := match r with RPickle | RDeepcopy => true | _ => false end.
 
 Definition kls_code (k : kls) : Z :=
   match k with KPromolecule => 1 | KConnectivity => 2 | KGeometry => 3 | KStructure => 4 | KMolecule => 5
@@ -419,7 +522,9 @@ Definition need_known (known : known_t) (k : kls) (r : route) : need :=
             known (need_of k r).
 
 Definition entry_ok (known : known_t) (e : entry) : bool :=
-  match e with (k, r, x) => if lone k then lone_ok k r x else row_ok (need_known known k r) x end.
+  match e with (k, r, x) =>
+    (if lone k then lone_ok k r x else row_ok (need_known known k r) x) && vals_ok (deep_route r) x
+  end.
 
 (* the routes every table must contain: same-class copies of the six constructible classes,
    pickle and deepcopy of all seven, evolve of atoms and bonds, the derived-molecule routes *)
@@ -526,11 +631,11 @@ Definition compile_op (h : heap) (o : loc) (x : op) : option (list prim) :=
       | OWeight i v => match we with
                        | Some l => match get h l with CArr vs => Some [PWrite l (CArr (set_nth i v vs))] | _ => None end
                        | None => None end
-      | OAttrib kv => match get h at_ with CDict _ => Some [PWrite at_ (CDict kv)] | _ => None end
+      | OAttrib kv => match get h at_ with CDict _ v => Some [PWrite at_ (CDict kv v)] | _ => None end
       | OAtomAttrib j kv =>
           match nth_error (items_of h al) j with
           | Some a => match get h a with
-                      | CAtom _ d _ => match get h d with CDict _ => Some [PWrite d (CDict kv)] | _ => None end
+                      | CAtom _ d _ => match get h d with CDict _ v => Some [PWrite d (CDict kv v)] | _ => None end
                       | _ => None end
           | None => None
           end
@@ -538,7 +643,7 @@ Definition compile_op (h : heap) (o : loc) (x : op) : option (list prim) :=
           match bl with
           | Some l => match nth_error (items_of h l) j with
                       | Some b => match get h b with
-                                  | CBond _ _ _ d _ => match get h d with CDict _ => Some [PWrite d (CDict kv)] | _ => None end
+                                  | CBond _ _ _ d _ => match get h d with CDict _ v => Some [PWrite d (CDict kv v)] | _ => None end
                                   | _ => None end
                       | None => None
                       end
@@ -548,6 +653,49 @@ Definition compile_op (h : heap) (o : loc) (x : op) : option (list prim) :=
       end
   | _ => None
   end.
+
+(* in-place edits of a mutable attribute VALUE (arr *= 2, lst.append(x), d[k] = v on a value stored under some key of
+   the object's / an atom's / a bond's attrib dictionary): the dictionary itself is not touched, the store changes *)
+Inductive vwhere := WObj | WAtom (j : nat) | WBond (j : nat).
+Inductive vedit := VEdit (w : vwhere) (c : list Z).
+Definition dict_at (h : heap) (o : loc) (w : vwhere) : option loc :=
+  match get h o with
+  | CMol _ _ al bl _ _ _ at_ =>
+      match w with
+      | WObj => Some at_
+      | WAtom j => match nth_error (items_of h al) j with
+                   | Some a => match get h a with CAtom _ d _ => Some d | _ => None end
+                   | None => None end
+      | WBond j => match bl with
+                   | Some l => match nth_error (items_of h l) j with
+                               | Some b => match get h b with CBond _ _ _ d _ => Some d | _ => None end
+                               | None => None end
+                   | None => None end
+      end
+  | _ => None
+  end.
+Definition compile_vedit (h : heap) (o : loc) (e : vedit) : option (list prim) :=
+  match e with
+  | VEdit w c =>
+      match dict_at h o w with
+      | Some d => match vals_of h d with
+                  | Some l => match get h l with CVal _ => Some [PWrite l (CVal c)] | _ => None end
+                  | None => None end
+      | None => None
+      end
+  end.
+
+(* the footprint discipline, generic in the pointer notion *)
+Fixpoint gprims_okb (P : cell -> list loc) (region : list loc) (h : heap) (ps : list prim) : bool :=
+  match ps with
+  | [] => true
+  | PWrite l c :: r =>
+      mem l region && forallb (fun p => mem p region) (P c) && gprims_okb P region (upd l c h) r
+  | PAlloc c :: r =>
+      forallb (fun p => mem p region || Nat.eqb p (length h)) (P c)
+      && gprims_okb P (length h :: region) (h ++ [c]) r
+  end.
+Definition vprims_okb := gprims_okb vptrs.
 
 (* ------------------------------------------------------------------ decidable equalities (for the correspondence check) *)
 Fixpoint list_eqb {A} (e : A -> A -> bool) (a b : list A) : bool :=
@@ -570,7 +718,8 @@ Definition oloc_eqb := opt_eqb Nat.eqb.
 Definition cell_eqb (a b : cell) : bool :=
   match a, b with
   | CFree, CFree => true
-  | CDict x, CDict y => dict_eqb x y
+  | CDict x v, CDict y w => dict_eqb x y && oloc_eqb v w
+  | CVal x, CVal y => zs_eqb x y
   | CArr x, CArr y => zs_eqb x y
   | CAtom p d q, CAtom p' d' q' => zs_eqb p p' && Nat.eqb d d' && pref_eqb q q'
   | CBond a b p d q, CBond a' b' p' d' q' =>
@@ -596,6 +745,10 @@ Definition obsr_eqb (a b : obsr) : bool :=
   && opt_eqb zs_eqb (o_coords a) (o_coords b) && opt_eqb zs_eqb (o_charges a) (o_charges b)
   && opt_eqb zs_eqb (o_weights a) (o_weights b) && opt_eqb dict_eqb (o_attrib a) (o_attrib b).
 Definition obs_eqb := opt_eqb obsr_eqb.
+Definition ozs_eqb := opt_eqb zs_eqb.
+Definition storesr_eqb (a b : storesr) : bool :=
+  ozs_eqb (s_obj a) (s_obj b) && list_eqb ozs_eqb (s_atoms a) (s_atoms b) && list_eqb ozs_eqb (s_bonds a) (s_bonds b).
+Definition stores_eqb := opt_eqb storesr_eqb.
 
 (* ------------------------------------------------------------------ correspondence case (tie H) *)
 Record case := mk_case {
@@ -606,11 +759,16 @@ Record case := mk_case {
   c_watch1 : list (loc * option obsr);  (* objects observed directly on the implementation after the copy *)
   c_mut : loc;                          (* the object the mutation goes through *)
   c_op : option op;                     (* an elementary edit of the menu, or None for a library routine *)
+  c_vop : option vedit;                 (* an in-place edit of an attribute value (then c_op = None) *)
   c_prims : list prim;                  (* the containers that changed, as re-read after the mutation *)
-  c_watch2 : list (loc * option obsr) }.
+  c_watch2 : list (loc * option obsr);
+  c_deep1 : list (loc * option storesr);   (* the attribute values of the watched objects, read directly after the copy *)
+  c_deep2 : list (loc * option storesr) }. (* ... and after the mutation *)
 
 Definition watch_ok (h : heap) (w : list (loc * option obsr)) : bool :=
   forallb (fun lo => obs_eqb (obs h (fst lo)) (snd lo)) w.
+Definition deep_ok (h : heap) (w : list (loc * option storesr)) : bool :=
+  forallb (fun lo => stores_eqb (stores h (fst lo)) (snd lo)) w.
 
 (* ------------------------------------------------------------------ copy with keyword overrides *)
 (* name / charge / mult of dst(source, ...): a named one takes the value of the keyword argument, every other
@@ -644,12 +802,21 @@ Definition check_case (t : list entry) (c : case) : bool :=
     match copy_route (c_route c) r (c_given c) (kls_code (dst_of (c_kls c) (c_route c))) (c_h0 c) (c_root c) with
     | None => false
     | Some (h1, o') =>
-        heap_eqb h1 (c_h1 c) && watch_ok h1 (c_watch1 c)
-        && rankedb h1
+        heap_eqb h1 (c_h1 c) && watch_ok h1 (c_watch1 c) && deep_ok h1 (c_deep1 c)
+        && rankedb h1 && vrankedb h1
         && let h2 := apply_prims h1 (c_prims c) in
-           (* a mutation through an object only writes what that object reaches *)
-           prims_okb (reach h1 (c_mut c)) h1 (c_prims c)
-           && watch_ok h2 (c_watch2 c)
+           (* a mutation through an object only writes what that object reaches; only an in-place edit of an
+              attribute value goes beyond the containers (into the store of the dictionary that holds the value) *)
+           (match c_vop c with None => prims_okb (reach h1 (c_mut c)) h1 (c_prims c) | Some _ => true end)
+           && vprims_okb (vreach h1 (c_mut c)) h1 (c_prims c)
+           && watch_ok h2 (c_watch2 c) && deep_ok h2 (c_deep2 c)
+           && match c_vop c with
+              | None => true
+              | Some e => match compile_vedit h1 (c_mut c) e with
+                          | Some ps => heap_eqb (apply_prims h1 ps) h2
+                          | None => false
+                          end
+              end
            && match c_op c with
               | None => true
               | Some x => match compile_op h1 (c_mut c) x with
